@@ -101,6 +101,11 @@ for _pid in ("C01", "C02"):
     PROPS[_pid]["theorem_modules"] = PROPS[_pid]["theorem_modules"] + ["DecProofs.Properties.C02GenRound"]
 PROPS["C12"]["theorem_modules"] = PROPS["C12"]["theorem_modules"] + ["DecProofs.Properties.C12GenNaN"]
 PROPS["C17"]["theorem_modules"] = PROPS["C17"]["theorem_modules"] + ["DecProofs.Properties.C17GenNext"]
+PROPS["C05"]["theorem_modules"] = PROPS["C05"]["theorem_modules"] + ["DecProofs.Properties.C05Format"]
+PROPS["C14"]["theorem_modules"] = PROPS["C14"]["theorem_modules"] + ["DecProofs.Properties.C14GenFrame"]
+for _pid in ("C01", "C02"):
+    PROPS[_pid]["theorem_modules"] = PROPS[_pid]["theorem_modules"] + ["DecProofs.Properties.C01GenMul"]
+PROPS["C06"]["theorem_modules"] = PROPS["C06"]["theorem_modules"] + ["DecProofs.Properties.C06GenToUInt32"]
 PROPS["C11"]["theorem_modules"] = PROPS["C11"]["theorem_modules"] + ["DecProofs.Properties.C11GenLogb", "DecProofs.Properties.C09GenQuantize"]
 PROPS["C06"]["theorem_modules"] = PROPS["C06"]["theorem_modules"] + ["DecProofs.Properties.C06GenToInt", "DecProofs.Properties.C06GenToIntRN"]
 PROPS["C09"]["theorem_modules"] = PROPS["C09"]["theorem_modules"] + ["DecProofs.Properties.C09GenQuantize"]
